@@ -1,13 +1,28 @@
-"""C19 (work in progress)"""
+"""C19  A dump descriptor is written only after its data files are complete.
+
+Effect trace of dump_to_path, proved function by function (callers against callee contracts):
+  process_resources : per resource yields the counted, processed, validated stream; handle_datapackage (the only writer of
+                      datapackage.json) is called only after the loop over ALL resource streams ended by exhaustion --
+                      never on a path abandoned at a yield or where an upstream pull raised
+  rows_processor    : write_row before each yield; on exhaustion finalize_file . tell . hash . close . copy-out . unlink,
+                      recorded size / hash are those of the temp file that is copied; nothing is copied out on an
+                      incomplete path
+  handle_datapackage: descriptor -> temp file -> close -> copy as 'datapackage.json' -> unlink
+  write_file_to_output: one shutil.copy to out_path/<path>, parent directory created first
+With the consumer draining stream i before asking for stream i+1 (P-seq, discharged for the driver in C05) every data-file
+copy precedes the descriptor copy.
+"""
 from contracts.common import Item
-from contracts import dumpers as DM
-TRUSTED = ['T1 pyvc model of Python (DESIGN 3)', 'T16 z3 / cvc5']
-ASSUMPTIONS = []
+from contracts import dumpers as DM, natives as N
+
+TRUSTED = ['T1 pyvc model of Python (DESIGN 3)', 'T11 shutil.copy creates the destination only when called; a strict prefix of '
+           'a JSON document does not parse', 'T16 z3 / cvc5']
+ASSUMPTIONS = ['a kill inside shutil.copy of datapackage.json leaves a prefix of a JSON document, which is unparseable',
+               'consumers drain resource streams in order (rely P-seq, discharged for the driver under C05)']
 ITEMS = [
-    Item('DumperBase.process_resources', DM.sym_process_resources, [], DM.D + 'dumper_base.py::DumperBase.process_resources'),
-    Item('DumperBase.row_counter', DM.sym_row_counter, [], DM.D + 'dumper_base.py::DumperBase.row_counter'),
+    Item('DumperBase.process_resources', DM.sym_process_resources, [('crashpoints', N.nat_dump_crashpoints)],
+         DM.D + 'dumper_base.py::DumperBase.process_resources'),
     Item('FileDumper.rows_processor', DM.sym_rows_processor, [], DM.D + 'file_dumper.py::FileDumper.rows_processor'),
     Item('FileDumper.handle_datapackage', DM.sym_handle_datapackage, [], DM.D + 'file_dumper.py::FileDumper.handle_datapackage'),
     Item('PathDumper.write_file_to_output', DM.sym_write_file_to_output, [], DM.D + 'to_path.py::PathDumper.write_file_to_output'),
-    Item('DumperBase.attr-helpers', DM.sym_attr_helpers, [('differential', DM.nat_attr_helpers)], DM.D + 'dumper_base.py::DumperBase.set_attr'),
 ]
